@@ -18,7 +18,7 @@ from torchsde._core import base_sde
 ID = "C16"
 LEVEL = "exploration"
 EXHAUSTIVE = True
-RULE = ("(a) exhaustive: 39 solver x noise cells x 7 interface variants; (b) generated smooth SDEs x random (t, y, v, A); "
+RULE = ("(a) exhaustive: 39 solver x noise cells x 10 interface variants; (b) generated smooth SDEs x random (t, y, v, A); "
         "non-trivial = the variant run was compared bitwise with the reference run or produced an explicit error; "
         "derived-operator cases with d >= 2; distinct = distinct case keys")
 ASSUMPTIONS = ["variant g_prod implementations perform the same floating-point operations as the library default "
@@ -27,8 +27,16 @@ ASSUMPTIONS = ["variant g_prod implementations perform the same floating-point o
                "drift-and-diffusion-product; euler_heun additionally the diffusion product; milstein/srk/log_ode(general)/"
                "reversible_heun need the diffusion itself"]
 REQUIRED_COUNTERS = ["variant_equal", "variant_explicit_error", "op_prod", "op_gdg_diagonal", "op_gdg_scalar",
-                     "op_gdg_additive", "op_levy_v1", "op_levy_v2", "renamed_runs"]
-VARIANTS = ["f_g", "f_and_g", "f_gprod", "f_and_g_prod", "f_and_g+g_prod", "all", "renamed"]
+                     "op_gdg_additive", "op_levy_v1", "op_levy_v2", "renamed_runs", "renamed_with_decoy_runs"]
+VARIANTS = ["f_g", "f_and_g", "f_gprod", "f_and_g_prod", "f_and_g+g_prod", "all", "renamed", "renamed+decoy",
+            "renamed_pair+decoy", "renamed_pairprod+decoy"]
+# renaming through `names`: the method named by the user is the one integrated, also when the object happens to have
+# another method under the standard name of that role (the usual latent-SDE layout has both f and h): the "decoy"
+# variants carry a DIFFERENT function under the standard name
+NAMES = {"renamed": {"drift": "mu", "diffusion": "sigma"},
+         "renamed+decoy": {"drift": "mu", "diffusion": "sigma"},
+         "renamed_pair+decoy": {"drift_and_diffusion": "mu_sigma"},
+         "renamed_pairprod+decoy": {"drift_and_diffusion_prod": "mu_sigma_prod"}}
 THRESHOLDS = {"operator_rel": 1e-11}
 
 
@@ -50,7 +58,13 @@ class Variant(nn.Module):
                 "f_and_g_prod": dict(f_and_g_prod=f_and_g_prod),
                 "f_and_g+g_prod": dict(f_and_g=f_and_g, g_prod=g_prod),
                 "all": dict(f=f, g=g, f_and_g=f_and_g, g_prod=g_prod, f_and_g_prod=f_and_g_prod),
-                "renamed": dict(mu=f, sigma=g)}[variant]
+                "renamed": dict(mu=f, sigma=g),
+                "renamed+decoy": dict(mu=f, sigma=g, f=lambda t, y: f(t, y) + 1.0, g=lambda t, y: 2.0 * g(t, y)),
+                "renamed_pair+decoy": dict(mu_sigma=f_and_g,
+                                           f_and_g=lambda t, y: (f(t, y) + 1.0, 2.0 * g(t, y))),
+                "renamed_pairprod+decoy": dict(mu_sigma_prod=f_and_g_prod,
+                                               f_and_g_prod=lambda t, y, v: (f(t, y) + 1.0, 2.0 * prod(g(t, y), v)))
+                }[variant]
         for k, v in have.items():
             setattr(self, k, v)
 
@@ -59,7 +73,8 @@ def provides(variant):
     """Primitive operations obtainable from what the variant supplies (documented defaults only)."""
     p = {"f_g": {"f", "g"}, "f_and_g": {"f_and_g"}, "f_gprod": {"f", "g_prod"}, "f_and_g_prod": {"f_and_g_prod"},
          "f_and_g+g_prod": {"f_and_g", "g_prod"}, "all": {"f", "g", "f_and_g", "g_prod", "f_and_g_prod"},
-         "renamed": {"f", "g"}}[variant]
+         "renamed": {"f", "g"}, "renamed+decoy": {"f", "g"}, "renamed_pair+decoy": {"f_and_g"},
+         "renamed_pairprod+decoy": {"f_and_g_prod"}}[variant]
     p = set(p)
     if {"f", "g"} <= p:
         p |= {"f_and_g"}
@@ -118,7 +133,7 @@ def run_iface(case):
         sde = Variant(base, variant)
         bm = torchsde.BrownianInterval(t0=0.0, t1=0.5, size=(B, base.m), entropy=entropy,
                                        levy_area_approximation=zoo.levy_for(cell["method"]))
-        kw = {"names": {"drift": "mu", "diffusion": "sigma"}} if variant == "renamed" else {}
+        kw = {"names": dict(NAMES[variant])} if variant in NAMES else {}
         expect_ok = needs(cell) <= provides(variant)
         try:
             ys = zoo.solve(cell, sde, y0, ts, dt, bm=bm, **kw)
@@ -133,6 +148,8 @@ def run_iface(case):
                 break
             ref = ys
             continue
+        if "decoy" in variant:
+            cnt["renamed_with_decoy_runs"] = cnt.get("renamed_with_decoy_runs", 0) + 1
         if variant == "renamed":
             cnt["renamed_runs"] = cnt.get("renamed_runs", 0) + 1
         ctx = f"cell={zoo.cell_name(cell)} variant={variant}"
